@@ -85,11 +85,39 @@ def to_model_shape(obs):
     ]
 
 
+def check_case(L, T, text, tree, parsed):
+    """Listings of the parsed and of the string argument, then of a reordered and of a lengthened variant asked right
+    afterwards on the same Licensing. Returns error text or None."""
+    exp = expected(T, tree)
+    err = None
+    for arg, what in ((parsed, 'parsed'), (text, 'string')):
+        obs = observe(L, arg)
+        if obs != exp and not err:
+            bad = [k for k in exp if obs[k] != exp[k]]
+            err = '%s argument: listing %s = %r, expected %r' % (what, bad[0], obs[bad[0]], exp[bad[0]])
+    if not err and tree[0] != 0:
+        # the same licenses in another order, asked right afterwards on the same Licensing
+        rev = [tree[0], list(reversed(tree[1]))]
+        rexp = expected(T, rev)
+        robs = observe(L, build_expr(rev))
+        if robs != rexp:
+            bad = [k for k in rexp if robs[k] != rexp[k]]
+            err = 'reversed operands right after the original: listing %s = %r, expected %r' % (bad[0], robs[bad[0]], rexp[bad[0]])
+        rep2 = [tree[0], tree[1] + [tree[1][0]]]
+        r2exp = expected(T, rep2)
+        r2obs = observe(L, build_expr(rep2))
+        if not err and r2obs != r2exp:
+            bad = [k for k in r2exp if r2obs[k] != r2exp[k]]
+            err = 'repeated operand right after the original: listing %s = %r, expected %r' % (bad[0], r2obs[bad[0]], r2exp[bad[0]])
+    return err
+
+
 def run(rep, tier, seed):
     le = imp()
     rng = random.Random(seed)
     rep.broken = []
     rep.compared = 0
+    rep.trail = []
     ntab = 300 if tier == 'thorough' else 50
     reqs, metas = [], []
     for _ in range(ntab):
@@ -117,34 +145,45 @@ def run(rep, tier, seed):
         if enc_expr(parsed) != tree:
             rep.count('skipped_other_tree')
             continue
-        exp = expected(T, tree)
-        err = None
-        for arg, what in ((parsed, 'parsed'), (text, 'string')):
-            obs = observe(L, arg)
-            if obs != exp and not err:
-                bad = [k for k in exp if obs[k] != exp[k]]
-                err = '%s argument: listing %s = %r, expected %r' % (what, bad[0], obs[bad[0]], exp[bad[0]])
-        if not err and tree[0] != 0:
-            # the same licenses in another order, asked right afterwards on the same Licensing
-            rev = [tree[0], list(reversed(tree[1]))]
-            rexp = expected(T, rev)
-            robs = observe(L, build_expr(rev))
-            if robs != rexp:
-                bad = [k for k in rexp if robs[k] != rexp[k]]
-                err = 'reversed operands right after the original: listing %s = %r, expected %r' % (bad[0], robs[bad[0]], rexp[bad[0]])
-            rep2 = [tree[0], tree[1] + [tree[1][0]]]
-            r2exp = expected(T, rep2)
-            r2obs = observe(L, build_expr(rep2))
-            if not err and r2obs != r2exp:
-                bad = [k for k in r2exp if r2obs[k] != r2exp[k]]
-                err = 'repeated operand right after the original: listing %s = %r, expected %r' % (bad[0], r2obs[bad[0]], r2exp[bad[0]])
+        err = check_case(L, T, text, tree, parsed)
+        rep.trail.append({'table': T, 'text': text, 'tree': tree})
         if err:
-            rep.violations.append({'key': 'listing', 'kind': 'text', 'table': T, 'text': text, 'tree': tree, 'what': err})
+            rep.violations.append({'key': 'listing', 'kind': 'text', 'table': T, 'text': text, 'tree': tree, 'what': err, '_at': len(rep.trail) - 1})
             continue
         rep.compared += 1
         got = to_model_shape(observe(L, parsed))
         if got != r and len(rep.broken) < 5:
             rep.broken.append('correspondence C10: table %r text %r model %r implementation %r' % (T, text, r, got))
+    # already-parsed arguments built by hand or combined from several origins: the same key may carry both
+    # exception flags, a WITH pair may be made of any two symbols
+    TT = [[], [('mit', [], False), ('cp', [], True)], [('a', [], False), ('gpl', ['gnu gpl'], False)]]
+    hand = []
+    for i in range(2000 if tier == 'thorough' else 300):
+        T = TT[i % len(TT)]
+        if i % 3 == 0:
+            tree = gen.gen_tree(rng, depth=rng.randint(1, 2), maxar=4, atoms=gen.clash_atoms())
+        else:
+            tree = gen.gen_tree(rng, depth=rng.randint(1, 3), maxar=4, keys=['mit', 'cp', 'a', 'gpl', 'x'], collide=True)
+        hand.append((T, tree))
+    hres = run_model([(9, [enc_table(T), tree]) for T, tree in hand])
+    Ls = {repr(T): make_licensing(T) for T in TT}
+    for (T, tree), r in zip(hand, hres):
+        L = Ls[repr(T)]
+        atoms = text_order_atoms(tree)
+        rep.case(('hand', repr(T), repr(tree)), nontrivial=len(atoms) != len(uniq(atoms)),
+                 sample={'table': T, 'tree': str(build_expr(tree))} if rep.distribution.get("hand_built", 0) < 3 else None)
+        rep.count('hand_built')
+        exp = expected(T, tree)
+        obs = observe(L, build_expr(tree))
+        if obs != exp:
+            bad = [k for k in exp if obs[k] != exp[k]]
+            rep.violations.append({'key': 'listing-parsed', 'kind': 'tree', 'table': T, 'tree': tree, 'text': str(build_expr(tree)),
+                                   'what': 'hand-built expression: listing %s = %r, expected %r' % (bad[0], obs[bad[0]], exp[bad[0]])})
+            continue
+        rep.compared += 1
+        got = to_model_shape(obs)
+        if got != r and len(rep.broken) < 5:
+            rep.broken.append('correspondence C10: table %r tree %r model %r implementation %r' % (T, tree, r, got))
     # None / blank
     L = le.Licensing()
     for arg in (None, '', '  '):
@@ -157,6 +196,13 @@ def replay(payload):
     T = [tuple(x) for x in payload['table']]
     T = [(k, a, e) for k, a, e in T]
     L = make_licensing(T)
-    exp = expected(T, payload['tree'])
-    obs = observe(L, payload['text'])
-    return obs == exp, 'listings %s' % ('follow text order' if obs == exp else 'differ')
+    if payload.get('kind') == 'tree':
+        exp = expected(T, payload['tree'])
+        obs = observe(L, build_expr(payload['tree']))
+        return obs == exp, 'listings %s' % ('follow text order' if obs == exp else 'differ')
+    try:
+        parsed = L.parse(payload['text'])
+    except Exception as ex:   # noqa
+        return False, 'text does not parse: %r' % (ex,)
+    err = check_case(L, T, payload['text'], payload['tree'], parsed)
+    return err is None, err or 'listings follow text order'
